@@ -6,6 +6,8 @@ import BfeVerif.C03.Model
        subs  = `name=weight=addr/weight/conn/avail,...;...` (`-` = no backend), backend `current` starts at weight
        steps = `q<RetryTime>:<client ip hex>` (Balance, strategy ClientIpOnly)
                `a<sub>.<backend>=<0|1>` (SetAvail)  `c<sub>.<backend>=<n>` (connNum := n)   (positions in op order)
+               `R<name>:<weight>/<name>:<weight>...` (`bal.Reload` with that gslb conf; result token `Rok` | `Rerr`)
+               `U<name>=<backend>` (`BackendReload` giving one backend to a sub-cluster that has none)
   result = per `q`: `ok:<SubclusterName>:<AddrInfo with : -> _>:<RetryTime after>` | `err:<code>:<SubclusterName|?>:<RetryTime after>`
   The `rand` of randomSelectExclude is read back from the implementation's answer: the model repeats the
   implementation's cross sub-cluster iff it is one of those `randomSelectExclude` may return.
@@ -77,7 +79,7 @@ def judge (c : Cl) (retry : Int) (h : Nat) (tok : String) : Option String :=
               if cur.name == blackholeName then some "blackhole-forwarded"
               else if s.name == cur.name then
                 (if s.w ≤ 0 then some "first-choice-nonpositive" else if decide (retry ≤ c.retryMax) then none else some "in-cluster-after-budget")
-              else if inOk then some "cross-although-in-cluster-eligible"
+              else if inOk then (if s.w ≤ 0 then some "traffic-to-nonpositive-sub" else some "cross-although-in-cluster-eligible")
               else if c.crossRetry ≤ 0 then some "cross-disabled"
               else none
   else if kind == "err" then
@@ -98,7 +100,8 @@ def judge (c : Cl) (retry : Int) (h : Nat) (tok : String) : Option String :=
 
 
 structure St where
-  c : Cl
+  c : Cl          -- model state
+  sc : Cl         -- specification state: only names, weights and backend lists are used (by `judge`)
   out : List String := []
   verdict : Option String := none
   tags : List String := []
@@ -110,6 +113,20 @@ def updBe (c : Cl) (subName addr : String) (f : Be → Be) : Cl :=
   { c with subs := c.subs.map fun s =>
       if s.name == subName then { s with bs := s.bs.map fun b => if b.addr == addr then f b else b } else s }
 
+def setBs (c : Cl) (subName : String) (bs : List Be) : Cl :=
+  { c with subs := c.subs.map fun s => if s.name == subName then { s with bs := bs } else s }
+
+/-- what a reload must amount to, independent of the history: exactly the sub-clusters of the new conf with
+    its weights; a sub-cluster that already existed keeps its backends, a new one has none -/
+def specReload (c : Cl) (conf : GConf) : Cl :=
+  { c with subs := conf.map fun p =>
+      { name := p.1, w := p.2, bs := ((c.subs.find? fun s => s.name == p.1).map (·.bs)).getD [] } }
+
+def parseConf (s : String) : Option GConf :=
+  (s.splitOn "/").mapM fun t => match t.splitOn ":" with
+    | [n, w] => w.toInt?.map fun w => (n, w)
+    | _ => none
+
 def qStep (st : St) (retry : Int) (key : List UInt8) (tok : String) : St :=
   let c := st.c
   let h := (C02.sum64 key).toNat
@@ -119,7 +136,7 @@ def qStep (st : St) (retry : Int) (key : List UInt8) (tok : String) : St :=
     | some cur => ((others c cur).map (·.name)).idxOf iSub
     | none => 0
   let r := balance c retry h n
-  let st := match judge c retry h tok, st.verdict with
+  let st := match judge st.sc retry h tok, st.verdict with
     | some cls, none => { st with verdict := some cls }
     | _, _ => st
   let st := match r.1 with
@@ -128,11 +145,44 @@ def qStep (st : St) (retry : Int) (key : List UInt8) (tok : String) : St :=
   let st := if c.subs.any (fun s => s.bs.any fun b => !elig b) then addTag st "inelig-present" else st
   { st with c := r.2.2, out := showRes r.1 r.2.1 :: st.out }
 
+/-- `R<name>:<w>/...` : `bal.Reload(conf)`; token `Rok` / `Rerr` -/
+def rStep (st : St) (conf : GConf) (tok : String) : St :=
+  let r := reload st.c conf
+  let posOld := (st.sc.subs.filter fun s => decide (0 < s.w)).map (·.name)
+  let sc' := specReload st.sc conf
+  let pos := sc'.subs.filter fun s => decide (0 < s.w)
+  let expect := if pos.isEmpty then "Rerr" else "Rok"
+  let st := if tok != expect ∧ st.verdict.isNone then { st with verdict := some "reload-result" } else st
+  let st := addTag st "reload"
+  let st := if pos.length == 1 then addTag st "reload-single" else st
+  let newNames := (conf.map (·.1)).filter fun n => !(st.sc.subs.any fun s => s.name == n)
+  let st := match pos with
+    | [p] => if newNames.any (fun n => decide (n < p.name)) then addTag st "reload-single-new-before" else st
+    | _ => st
+  let st := if (conf.map (·.1)).contains blackholeName then addTag st "reload-blackhole" else st
+  let st := if posOld != pos.map (·.name) then addTag st "reload-moves-traffic" else st
+  -- a failed reload is outside the quantifier of the property (config check rejects total weight <= 0):
+  -- the specification state then follows the model so that later requests are still compared
+  { st with c := r.1, sc := if r.2 then sc' else { st.sc with subs := r.1.subs }
+            out := (if r.2 then "Rok" else "Rerr") :: st.out }
+
 def step (subsOp : List SubSt) (st : St) (s : String) (tok : String) : St :=
   if s.startsWith "q" then
     match ((s.drop 1).toString).splitOn ":" with
     | [r, k] => match r.toInt?, bytesOfHex k with
       | some r, some key => qStep st r key tok
+      | _, _ => { st with bad := true }
+    | _ => { st with bad := true }
+  else if s.startsWith "R" then
+    match parseConf (s.drop 1).toString with
+    | some conf => rStep st conf tok
+    | none => { st with bad := true }
+  else if s.startsWith "U" then
+    -- `U<name>=<backend>`: BackendReload gives ONE backend to a sub-cluster that has none
+    match ((s.drop 1).toString).splitOn "=" with
+    | [n, b] => match parseBe b, st.c.subs.find? (fun x => x.name == n) with
+      | some b, some sub =>
+        if sub.bs.isEmpty then { st with c := setBs st.c n [b], sc := setBs st.sc n [b] } else { st with bad := true }
       | _, _ => { st with bad := true }
     | _ => { st with bad := true }
   else
@@ -144,9 +194,8 @@ def step (subsOp : List SubSt) (st : St) (s : String) (tok : String) : St :=
           match subsOp[si]? with
           | some sub => match sub.bs[bi]? with
             | some b =>
-              let c := if kind == "a" then updBe st.c sub.name b.addr (fun x => { x with avail := v == 1 })
-                else updBe st.c sub.name b.addr (fun x => { x with conn := v })
-              { st with c := c }
+              let f : Be → Be := if kind == "a" then (fun x => { x with avail := v == 1 }) else (fun x => { x with conn := v })
+              { st with c := updBe st.c sub.name b.addr f, sc := updBe st.sc sub.name b.addr f }
             | none => { st with bad := true }
           | none => { st with bad := true }
         | _, _ => { st with bad := true }
@@ -156,7 +205,7 @@ def step (subsOp : List SubSt) (st : St) (s : String) (tok : String) : St :=
 def runSteps (subsOp : List SubSt) : St → List String → List String → St
   | st, [], _ => st
   | st, s :: rest, toks =>
-    if s.startsWith "q" then
+    if s.startsWith "q" || s.startsWith "R" then
       match toks with
       | t :: ts => runSteps subsOp (step subsOp st s t) rest ts
       | [] => runSteps subsOp (step subsOp st s "") rest []
@@ -171,7 +220,7 @@ def run (op impl : String) : Ans :=
       match mkCluster subs rmax cross algo with
       | none => { model := "init-err", verdict := if impl == "init-err" then "ok" else "FAIL:init", tags := ["init-err"] }
       | some c =>
-        let st := runSteps subs { c := c } (stepsS.splitOn ",") (impl.splitOn ",")
+        let st := runSteps subs { c := c, sc := c } (stepsS.splitOn ",") (impl.splitOn ",")
         if st.bad then { model := "bad-op", verdict := "skip" } else
         { model := ",".intercalate st.out.reverse
           verdict := match st.verdict with
